@@ -64,6 +64,18 @@ class Report:
             self.analysis_errors.append(f"{name}: {e}")
             return None
 
+    def structural_section(self, name, decided_by, func, *args, **kw):
+        """A part whose rules recognise one SPELLING of a routine, for a clause that a fold decides on its own (named in
+        `decided_by`).  When the spelling is not recognised the part is skipped with an INFO instance - the clause is
+        still decided - instead of refusing the whole property."""
+        from .tree import AnalysisError
+        try:
+            return func(*args, **kw)
+        except AnalysisError as e:
+            self._add("INFO", "R-STRUCTURE", ("pycaption", name), f"{name}: structural rules skipped (spelling not recognised)",
+                      {"reason": str(e)[:300], "clause_decided_by": decided_by}, None)
+            return None
+
     def _add(self, verdict, rule, where, construct, detail=None, clause=None):
         module, qualname, line = _where(where)
         inst = Instance(rule, module, qualname, construct, verdict, detail, line, clause)
